@@ -63,11 +63,13 @@ func TestInterceptorReports(t *testing.T) {
 		nss := rapid.IntRange(1, 3).Draw(t, "streams")
 		srcs := make([]*kit.ByteSource, nss)
 		readers := make([]interceptor.RTPReader, nss)
+		infos := make([]*interceptor.StreamInfo, nss)
 		seqs := make([]uint16, nss+1) // one more SSRC that has no binding of its own: its packets arrive through another stream's reader
 		seqs[nss] = kit.U16Boundary().Draw(t, "startSeqUnbound")
 		for i := range srcs {
 			srcs[i] = &kit.ByteSource{}
-			readers[i] = ic.BindRemoteStream(&interceptor.StreamInfo{SSRC: uint32(1000 + i)}, srcs[i]) //nolint:gosec
+			infos[i] = &interceptor.StreamInfo{SSRC: uint32(1000 + i)} //nolint:gosec
+			readers[i] = ic.BindRemoteStream(infos[i], srcs[i])
 			seqs[i] = kit.U16Boundary().Draw(t, "startSeq")
 		}
 		n := rapid.IntRange(20, 200).Draw(t, "n")
@@ -114,6 +116,13 @@ func TestInterceptorReports(t *testing.T) {
 			feds = append(feds, fed{ssrc: uint32(1000 + k), seq: seqs[k]}) //nolint:gosec
 			if pause {
 				time.Sleep(400 * time.Microsecond)
+			}
+		}
+		// a stream may be removed right after its last packets were read: what arrived before still belongs in the next report
+		if rapid.IntRange(0, 2).Draw(t, "unbindAtEnd") == 0 {
+			k := rapid.IntRange(0, nss-1).Draw(t, "unbindStream")
+			if o := kit.Guard(0, func() { ic.UnbindRemoteStream(infos[k]) }); !o.OK() {
+				t.Fatalf("UnbindRemoteStream: %s", o)
 			}
 		}
 		// wait for two more complete reports after the last packet, then stop
